@@ -973,15 +973,44 @@ class Interp:
         # a < b <= c : evaluate operands left to right; all operands here are evaluated eagerly
         # (python would short-circuit; operands with side effects in chains are outside the subset).
         operands = [node.left] + list(node.comparators)
-        if len(operands) > 2:
-            for o in operands[1:]:
-                if not self._pure_expr(o):
-                    raise Unsupported("comparison chain with impure operand")
+        if len(operands) > 2 and not all(self._pure_expr(o) for o in operands[1:]):
+            yield from self._compare_chain_lazy(st, node.ops, operands)
+            return
         for st1, vs in self.ev_many(operands, st):
             if isinstance(vs, Exc):
                 yield st1, vs
                 continue
             yield from self._compare_chain(st1, node.ops, vs)
+
+    def _compare_chain_lazy(self, st, ops, operands):
+        """a op1 b op2 c ... with operands that may call functions: Python's own order - each operand is evaluated once,
+        and only if all comparisons before it were true (a symbolic comparison result forks the path)."""
+
+        def rec(st, k, left):
+            # left = value of operand k; compare it with operand k+1
+            for st1, right in list(self.ev(operands[k + 1], st)):
+                if isinstance(right, Exc):
+                    yield st1, right
+                    continue
+                for st2, r in self.models.compare(self, st1, type(ops[k]).__name__, left, right):
+                    if isinstance(r, Exc):
+                        yield st2, r
+                        continue
+                    t = self.truth(r, st2)
+                    if k + 1 == len(ops):
+                        yield st2, t
+                        continue
+                    for st3, b in self.branch(st2, t):
+                        if b:
+                            yield from rec(st3, k + 1, right)
+                        else:
+                            yield st3, False
+
+        for st0, first in list(self.ev(operands[0], st)):
+            if isinstance(first, Exc):
+                yield st0, first
+            else:
+                yield from rec(st0, 0, first)
 
     def _pure_expr(self, node):
         for n in ast.walk(node):
